@@ -165,6 +165,17 @@ fn unpaced_trials(cell: &Cell, rep: &mut Report) {
     // the write -> next-write gap of a cell whose reply is paced legitimately contains the 100 ms wait
     let check_send_gap = !cell.send_paced && !cell.recv_paced;
     let done = |s: Duration, r: Duration, w: Duration| (!check_send_gap || s < SEND_PACE) && (!expects_reply || cell.recv_paced || r < SEND_PACE) && (!expects_reply || cell.send_paced || w < SEND_PACE);
+    // once a class of delay has been reported three times, further cells of that class are not measured (a bus that
+    // delays everything would otherwise cost 75 x 100 ms per cell)
+    let send_settled = !rep.wants_violation(MON, "unpaced_message_delayed");
+    let recv_settled = !rep.wants_violation(MON, "unpaced_reply_delayed");
+    if (send_settled || !check_send_gap) && (recv_settled || !expects_reply || cell.recv_paced) && (send_settled || recv_settled) {
+        rep.count("unpaced_cells_skipped_after_refutation");
+        if !cell.send_paced {
+            rep.count("unpaced_send_cells");
+        }
+        return;
+    }
     'rounds: for round in 0..3 {
         if round > 0 {
             std::thread::sleep(Duration::from_millis(200));
